@@ -339,6 +339,52 @@ SymAgrees(w, h) ==
     IN /\ 2^st.e = t.p2 /\ st.lev = t.lev
        /\ SymAxisAgrees(st.x, t.x) /\ SymAxisAgrees(st.y, t.y)
 
+\* ---------------------------------------------------------------- pixel values at the edge of a type's meaning
+\* "Reproduces the image exactly, with every pixel outside the image undefined (transparent or NaN)": which pixels are
+\* undefined is a matter of ONE value per kind of image - NaN in floating-point images, alpha 0 in RGBA images, and (the
+\* library's convention) 0 in integer images.  Every other value is a defined pixel however unusual it is: the
+\* infinities, the signed zeros, subnormal numbers, the largest finite numbers, the largest integer, black, white,
+\* alpha 1.  A lossless tile format stores a pixel of any class as itself; in particular a tile whose image part holds
+\* nothing but one of the defined classes is a tile WITH data (it is written, and reads back as that class).
+ValueKinds == {"F", "I", "RGB", "RGBA"}
+ValueClasses == [F    |-> {"nan", "neginf", "negmax", "negsub", "negzero", "zero", "possub", "posmin", "posmax", "posinf", "ordinary"},
+                 I    |-> {"zero", "one", "max", "ordinary"},
+                 RGB  |-> {"black", "white", "ordinary"},
+                 RGBA |-> {"transparent", "blackfaint", "whitefaint", "blackopaque", "whiteopaque", "ordinary"}]
+UndefClass == [F |-> "nan", I |-> "zero", RGB |-> "none", RGBA |-> "transparent"]
+DefinedValue(kind, cls) == cls # UndefClass[kind]
+StoreAsIs(kind, cls) == cls                               \* as the code: np.save / fits.writeto / PIL.save of the buffer
+\* refuted variants (kept so that TLC shows ValuesOK separates them): a writer that blanks everything non-finite, and one
+\* that flushes subnormals and the negative zero to zero
+StoreBlankingNonFinite(kind, cls) == IF kind = "F" /\ cls \in {"neginf", "posinf"} THEN "nan" ELSE cls
+StoreFlushingToZero(kind, cls) == IF kind = "F" /\ cls \in {"negsub", "possub"} THEN "zero" ELSE cls
+ValuesOK(Store(_, _)) ==
+    \A kind \in ValueKinds : \A cls \in ValueClasses[kind] :
+       /\ Store(kind, cls) = cls
+       /\ DefinedValue(kind, Store(kind, cls)) = DefinedValue(kind, cls)
+\* a tile whose image part is rectangle r, every image pixel of class cls: stored (a file exists) iff the class is defined
+TileOfClassStored(kind, cls) == DefinedValue(kind, cls)
+\* what the harness is handed: per kind the classes, and whether a pixel of the class is defined
+EdgeValueTable == [kind \in ValueKinds |-> [cls \in ValueClasses[kind] |-> DefinedValue(kind, cls)]]
+
+\* ---------------------------------------------------------------- how the caller's integers are represented
+\* Offsets, sizes and pixel indexes are integers; the caller may hand them over as Python integers or as NumPy integers
+\* of any width (a uint8 / int16 scalar, a uint16 index array).  The geometry is a function of their VALUES.  The
+\* refuted variant does the addition g0 + x in the caller's representation, where it wraps around.
+IntReprs == [i8 |-> <<-128, 256>>, u8 |-> <<0, 256>>, i16 |-> <<-32768, 65536>>, u16 |-> <<0, 65536>>]     \* <<lowest, modulus>>
+ReprHolds(rep, v) == v >= IntReprs[rep][1] /\ v < IntReprs[rep][1] + IntReprs[rep][2]
+WrapIn(rep, v) == LET lo == IntReprs[rep][1] m == IntReprs[rep][2] IN ((v - lo) % m) + lo
+AxisSlotWrapping(rep, a, x) == LET g == WrapIn(rep, a.g0 + x) IN <<g \div TS, g % TS>>
+SubAxisWrapping(rep, a, off, sublen) == [a EXCEPT !.g0 = WrapIn(rep, @ + off), !.len = sublen]
+\* "every image pixel gets its slot / a sub-image shares the parent's geometry" for every representation that holds the
+\* caller's values: true of AxisSlot / SubAxis (which do not look at the representation) ...
+ReprSlotsOK(Slot(_, _, _), a, xs) ==
+    \A rep \in DOMAIN IntReprs : \A x \in xs : ReprHolds(rep, x) => Slot(rep, a, x) = AxisSlot(a, x)
+ReprSubOK(Sub(_, _, _, _), a, off, sublen) ==
+    \A rep \in DOMAIN IntReprs : (ReprHolds(rep, off) /\ ReprHolds(rep, sublen)) => Sub(rep, a, off, sublen) = SubAxis(a, off, sublen)
+AxisSlotAnyRepr(rep, a, x) == AxisSlot(a, x)
+SubAxisAnyRepr(rep, a, off, sublen) == SubAxis(a, off, sublen)
+
 \* ================================================================ state machines (give TLC the bounded space)
 \* A behaviour picks a size ("pick", nothing computed yet), builds the tiling of the full image ("full",
 \* StudyTiling.__init__), derives any sub-image tiling of it ("sub", compute_for_subimage), returns to the
